@@ -57,6 +57,17 @@
 //    (the keep-alive ends the library's handshake phase), pump, then send messages.
 //  * WirePeer re-arms TCP_QUICKACK after every read: otherwise Nagle on the library's socket +
 //    delayed ACKs make small writes arrive tens of ms (REAL time) late and pump() would stop early.
+//  * NetworkConfig setters (block_ipv6, buffer sizes, bind address, ...) schedule a delayed change
+//    notification that makes ThreadMain restart -- i.e. with no client "network initialized" flag,
+//    CLOSE -- the listener. Session::init applies Config and lets that fire BEFORE listen_open. If
+//    your driver changes network_config later, call advance_us(1000000) and re-open the listener
+//    (torrent::runtime::network_manager()->listen_open(lo, hi)) yourself.
+//  * Manager ticks: see next_tick_in_us()/avoid_tick_within(). A scenario that must not see a
+//    choke cycle / keep-alive calls avoid_tick_within(<virtual time it will consume>) first.
+//  * choke_queue facts: INTERESTED unchokes at once when slots allow (they do by default) and
+//    >10 s (virtual) passed since the connection's last choke change; Peer::set_snubbed(true) chokes at
+//    once AND clears the "queued" (interested) flag, so after set_snubbed(false) the peer must send
+//    INTERESTED again to be unchoked (see harness/c05.cc for the full recipe).
 //  * Observers (dump_*) only READ private state (-fno-access-control); never write it.
 //  * Content of a torrent is a pure function of (content_seed, global offset): content_byte().
 //    T->content holds it; T->piece(i) / T->piece_size(i) slice it; on-disk deviations are listed
